@@ -696,7 +696,7 @@ closure_model(r'^(std::)?(result::)?Result::<.*>::and_then(::<.*>)?$', 2,
 
 # identity conversions ------------------------------------------------------
 
-@pattern(r'^<impl Into<(.*)> as Into<(.*)>>::into$')
+@pattern(r'^<impl (::)?(core::convert::|std::convert::)?Into<(.*)> as Into<(.*)>>::into$')
 def m_into_identity(ex, st, args, dty, canon):
     return args[0]
 
@@ -704,3 +704,50 @@ def m_into_identity(ex, st, args, dty, canon):
 @pattern(r'^<.* as IntoFuture>::into_future$')
 def m_into_future(ex, st, args, dty, canon):
     return args[0]
+
+
+@pattern(r'^<(i|u)(8|16|32|64|128|size) as Default>::default$')
+def m_int_default(ex, st, args, dty, canon):
+    ty = re.match(r'^<(\w+) as Default', canon[4]).group(1)
+    return Sc(I(0), ty)
+
+
+@model('<() as Default>::default')
+def m_unit_default(ex, st, args, dty, canon):
+    return UNIT
+
+
+@model('<bool as Default>::default')
+def m_bool_default(ex, st, args, dty, canon):
+    return Sc(z3.BoolVal(False), 'bool')
+
+
+@pattern(r'^(std::)?(result::)?Result::<(i|u)(8|16|32|64|128|size), .*>::unwrap_or_default$')
+def m_result_unwrap_or_default(ex, st, args, dty, canon):
+    v = args[0]
+    d = ex.discr_of(st, v).t
+    pv = payload(ex, st, v, 0, 0, dty)
+    return Sc(z3.If(d == 0, pv.t, I(0)), pv.ty)
+
+
+@pattern(r'_Optional<.*>>::into_value(::<.*>)?$|_Optional>::into_value$')
+def m_typed_builder_into_value(ex, st, args, dty, canon):
+    """typed-builder: `()` (field not set) -> default(), `(T,)` -> the value"""
+    v = args[0]
+    if isinstance(v, Tree) and (v.origin or '').startswith('uninit') and not v.f:
+        v = UNIT        # zero-sized `()` markers are never assigned in MIR
+    if isinstance(v, Tree) and v.origin is None:
+        if 0 in v.f:
+            return v.f[0]
+        caller = st.frames[-1]
+        term = caller.fn.blocks[caller.bb].term
+        dcell, dpath, _ = ex.resolve(st, caller, term.place)
+
+        def cont(ex2, s2, r):
+            ex2.store(s2, dcell, dpath, r)
+            c2 = s2.frames[-1]
+            c2.bb, c2.idx = term.target, 0
+            return NOTHING
+        r = call_fnlike(ex, st, args[1], [], cont)
+        return NOTHING
+    raise Inconclusive('typed-builder into_value on %r' % (v,))
